@@ -8,5 +8,7 @@ Open Scope Z_scope.
 Definition dispatch (u : Z) (a : sx) : sx :=
   match u with
   | 1 => u_get_n_best a
+  | 2 => u_highest_averages a
+  | 3 => u_divisor a
   | _ => bad_input
   end.
